@@ -286,6 +286,14 @@ class DefGen:
                     prefix = r.choice(list(SI_EXP))
             d["units"].append({"ident": self.ident(), "symbol": self.symbol(used_syms), "prefix": prefix, "scale": lit,
                                "doc": r.choice([None, None, "doc " + self.word()])})
+        if r.random() < 0.3 and len(d["units"]) >= 2:
+            # two tiny scales closer together than 1e-9, in either declaration order
+            pair = r.choice([("0.000000001", "0.000000000001"), ("0.0000000005", "0.0000000002"), ("0.00000000025", "0.0000000003")])
+            i, j = r.sample(range(len(d["units"])), 2)
+            if r.random() < 0.5:
+                i, j = j, i
+            d["units"][i]["scale"], d["units"][j]["scale"] = pair
+            d["units"][i]["prefix"] = d["units"][j]["prefix"] = None
         order = list(range(n_units - 1)) + ["R"]
         r.shuffle(order)
         if r.random() < 0.5:                            # conventional: ref_unit first
